@@ -128,10 +128,12 @@ pub fn run_random(rec: &mut Rec, seed: u64, run: u64, nops: usize) {
                         Ok(Some(x)) => s(x.u128()), _ => json!("none") }
                 };
                 dpre = f.w.digest();
-                rs = f.w.provide_trio(&user, &f.trio.clone(), [&a0, &a1, &a2], [d[0], d[1], d[2]]);
+                // slippage tolerance: none, 0, 1 %, 50 %, 1, just above 1
+                let slip: Option<u128> = match r.gen_range(0..8) { 0 => Some(0), 1 => Some(ONE / 100), 2 => Some(ONE / 2), 3 => Some(ONE), 4 => Some(ONE + 1), 5 => Some(ONE / 1000), _ => None };
+                rs = f.w.provide_trio_slip(&user, &f.trio.clone(), [&a0, &a1, &a2], [d[0], d[1], d[2]], slip);
                 dpost = f.w.digest();
                 name = "provide"; actor = "user1";
-                args = json!({"d": sv(&d), "amp": cur.to_string(), "curve": curve, "minted": rs.attr("provide_liquidity", "share").unwrap_or("0".into())});
+                args = json!({"d": sv(&d), "amp": cur.to_string(), "curve": curve, "slip": slip.map(s).unwrap_or(json!("none")), "minted": rs.attr("provide_liquidity", "share").unwrap_or("0".into())});
             }
             _ => {
                 let lpa = A::Cw20(f.trio_lp.clone());
